@@ -15,6 +15,24 @@ from .terms import EngineError, cur
 _rec = [None]      # active loop recorder (loops.py)
 
 
+_canon_memo = {}
+
+
+def _canon_index(i):
+    """canonical form of a symbolic index term (n-(i+1) and n-1-i become the same term), so that
+    equal elements of the same array are syntactically equal"""
+    k = i.get_id()
+    r = _canon_memo.get(k)
+    if r is None:
+        r = z3.simplify(i, som=True)
+        v = T.conc_value(r)
+        if v is not None:
+            r = int(v)
+        _canon_memo[k] = r
+        _canon_memo[("keep", k)] = i
+    return r
+
+
 def _key(i):
     if isinstance(i, z3.ExprRef):
         return ("z", i.get_id())
@@ -64,6 +82,8 @@ class SymArray:
 
     def at(self, i):
         """element term at index i (no bounds obligation; see get())"""
+        if isinstance(i, z3.ArithRef) and not z3.is_const(i):
+            i = _canon_index(i)
         k = _key(i)
         m = self._memo.get(k)
         if m is not None:
@@ -183,6 +203,8 @@ class SymArray:
         tier = getattr(self, "inv_tier", 0)
 
         def at(i):
+            if isinstance(i, z3.ArithRef) and not z3.is_const(i):
+                i = _canon_index(i)
             k = _key(i)
             m = memo.get(k)
             if m is not None:
